@@ -39,13 +39,13 @@ theorem swap_swap (c : Cfg) : c.swap.swap = c := rfl
 
 /-! ### the second half of a round, after A has sent -/
 
-theorem second_half (fp : Hash → Bool) {c1 : Cfg} (hr : Reachable fp c1)
+theorem second_half (fp : Hash → Bool) {c1 : Cfg} (hr : Good c1)
     (hab : c1.linkAB = []) (hba : c1.linkBA = [])
     (hf : c1.stB.inFlight = false) (hth : c1.stB.theirHeads = some c1.docA.heads) :
     SameSet (halfRound fp c1.swap).swap ∨
     (halfRound fp c1.swap = sendA fp c1.swap ∧ Fresh (sendA fp c1.swap).swap ∧
       Cover (sendA fp c1.swap).swap) := by
-  have inv := Inv.of_reachable fp hr
+  have inv := hr.inv
   rcases halfRound_cases fp c1.swap hba (resetA_false inv.swap) with ⟨hq, he⟩ | ⟨_, he⟩
   · left
     rw [he, swap_swap]
@@ -85,16 +85,16 @@ theorem sendA_stB (fp : Hash → Bool) {c : Cfg} (inv : Inv c) :
 
 /-! ### phase G -/
 
-theorem phase_G (fp : Hash → Bool) {c : Cfg} (hr : Reachable fp c) (hfr : Fresh c) :
+theorem phase_G (fp : Hash → Bool) {c : Cfg} (hr : Good c) (hfr : Fresh c) :
     SameSet (round fp c) ∨ (Fresh (round fp c) ∧ Cover (round fp c)) := by
-  have inv := Inv.of_reachable fp hr
+  have inv := hr.inv
   rcases halfRound_cases fp c hfr.linkAB (resetA_false inv) with ⟨hq, _⟩ | ⟨_, he⟩
   · left
     obtain ⟨h1, _, _, _⟩ := quiet_free hq inv.a.rw.1 hfr.flight
     rw [hfr.theirHeads] at h1
     have : SameSet c := sameSet_of_heads_eq inv (by injection h1 with h1; exact h1.symm)
-    exact this.round hr
-  · have hr1 : Reachable fp (sendA fp c) := by rw [← he]; exact hr.halfRound
+    exact this.round (fp := fp) hr
+  · have hr1 : Good (sendA fp c) := by rw [← he]; exact (hr.halfRound fp)
     obtain ⟨g1, g2⟩ := sendA_stB fp inv
     show SameSet (halfRound fp (halfRound fp c).swap).swap ∨
       (Fresh (halfRound fp (halfRound fp c).swap).swap ∧ Cover (halfRound fp (halfRound fp c).swap).swap)
@@ -105,9 +105,9 @@ theorem phase_G (fp : Hash → Bool) {c : Cfg} (hr : Reachable fp c) (hfr : Fres
 
 /-! ### phase E -/
 
-theorem phase_E (fp : Hash → Bool) {c : Cfg} (hr : Reachable fp c) (hab : c.linkAB = [])
+theorem phase_E (fp : Hash → Bool) {c : Cfg} (hr : Good c) (hab : c.linkAB = [])
     (hba : c.linkBA = []) : SameSet (round fp c) ∨ Fresh (round fp c) := by
-  have inv := Inv.of_reachable fp hr
+  have inv := hr.inv
   show SameSet (halfRound fp (halfRound fp c).swap).swap ∨ Fresh (halfRound fp (halfRound fp c).swap).swap
   rcases halfRound_cases fp c hab (resetA_false inv) with ⟨hqa, he⟩ | ⟨_, he⟩
   · rw [he]
@@ -122,7 +122,7 @@ theorem phase_E (fp : Hash → Bool) {c : Cfg} (hr : Reachable fp c) (hab : c.li
     · right
       rw [he2]
       exact fresh_after_send fp inv.swap hab
-  · have hr1 : Reachable fp (sendA fp c) := by rw [← he]; exact hr.halfRound
+  · have hr1 : Good (sendA fp c) := by rw [← he]; exact (hr.halfRound fp)
     obtain ⟨g1, g2⟩ := sendA_stB fp inv
     rw [he]
     rcases second_half fp hr1 rfl hba g1 g2 with h | ⟨h1, h2, _⟩
@@ -133,13 +133,13 @@ theorem phase_E (fp : Hash → Bool) {c : Cfg} (hr : Reachable fp c) (hab : c.li
 
 /-- half-round progress: A knows that B needs `x`, has it, and B has not received it: A sends and
     `x` arrives at B -/
-theorem half_progress (fp : Hash → Bool) {c : Cfg} (hr : Reachable fp c) (hab : c.linkAB = [])
+theorem half_progress (fp : Hash → Bool) {c : Cfg} (hr : Good c) (hab : c.linkAB = [])
     (hf : c.stA.inFlight = false) {nd : List Hash} {hv : List Have}
     (hn : c.stA.theirNeed = some nd) (hh : c.stA.theirHave = some hv) {x : Hash} (hx : x ∈ nd)
     (hxa : x ∈ c.docA.hashes) (hxb : hasB c.docB x = false) {u : List Hash} (hu : x ∈ u) :
     halfRound fp c = sendA fp c ∧ lacking u (sendA fp c).docB < lacking u c.docB := by
-  have inv := Inv.of_reachable fp hr
-  have i2 := Inv2.of_reachable fp hr
+  have inv := hr.inv
+  have i2 := hr.inv2
   have hns : x ∉ c.stA.sentHashes := by
     intro hin
     rcases i2.a.sentArrived x hin with h1 | ⟨m, hm, _⟩
@@ -165,19 +165,19 @@ theorem ourNeed_rw {d : Doc} {s : State} (h : s.readOnly = false) :
     ourNeed d s = d.missingDepsFrom (s.theirHeads.getD []) := by
   unfold ourNeed; simp [h]
 
-theorem phase_P (fp : Hash → Bool) {c : Cfg} (hr : Reachable fp c) (hfr : Fresh c) (hcov : Cover c)
+theorem phase_P (fp : Hash → Bool) {c : Cfg} (hr : Good c) (hfr : Fresh c) (hcov : Cover c)
     {u : List Hash} (hu : Univ u c) (hns : ¬ SameSet c) : miss u (round fp c) < miss u c := by
-  have inv := Inv.of_reachable fp hr
-  have i2 := Inv2.of_reachable fp hr
+  have inv := hr.inv
+  have i2 := hr.inv2
   obtain ⟨H, hH, hcover⟩ := hcov
   have hndB : ourNeed c.docB c.stB = c.docB.missingDepsFrom H := by
     rw [ourNeed_rw (d := c.docB) (s := c.stB) inv.b.rw.1, hH]; rfl
   -- what a second half round does to the measure
-  have second_le : ∀ c1 : Cfg, Reachable fp c1 →
+  have second_le : ∀ c1 : Cfg, Good c1 →
       lacking u (halfRound fp c1.swap).swap.docA ≤ lacking u c1.docA ∧
       (halfRound fp c1.swap).swap.docB = c1.docB := by
     intro c1 hr1
-    have g := halfRound_grows hr1.swap
+    have g := halfRound_grows (fp := fp) hr1.swap
     exact ⟨lacking_mono g.has, g.docA⟩
   cases hnd : ourNeed c.docB c.stB with
   | cons x rest =>
@@ -188,7 +188,7 @@ theorem phase_P (fp : Hash → Bool) {c : Cfg} (hr : Reachable fp c) (hfr : Fres
       (fun h hh => inv.b.theirHeads H hH h hh) hxin
     obtain ⟨he, hlt⟩ := half_progress fp hr hfr.linkAB hfr.flight hfr.theirNeed hfr.theirHave
       (by rw [hnd]; simp) hxa hxb (hu x (Or.inl hxa))
-    have hr1 : Reachable fp (sendA fp c) := by rw [← he]; exact hr.halfRound
+    have hr1 : Good (sendA fp c) := by rw [← he]; exact (hr.halfRound fp)
     obtain ⟨s1, s2⟩ := second_le (sendA fp c) hr1
     show lacking u (halfRound fp (halfRound fp c).swap).swap.docA +
       lacking u (halfRound fp (halfRound fp c).swap).swap.docB < lacking u c.docA + lacking u c.docB
@@ -224,8 +224,8 @@ theorem phase_P (fp : Hash → Bool) {c : Cfg} (hr : Reachable fp c) (hfr : Fres
         obtain ⟨h1, _, _, _⟩ := quiet_free hq inv.a.rw.1 hfr.flight
         rw [hfr.theirHeads] at h1
         exact hheadsNe (by injection h1 with h1; exact h1.symm)
-      · have hr1 : Reachable fp (sendA fp c) := by rw [← he]; exact hr.halfRound
-        have g1 := halfRound_grows hr
+      · have hr1 : Good (sendA fp c) := by rw [← he]; exact (hr.halfRound fp)
+        have g1 := halfRound_grows (fp := fp) hr
         rw [he] at g1
         obtain ⟨f1, _, f3, f4, _⟩ := recvState_fields c.docB c.stB
           (mkMessage c.docA c.stA (mkBuilder fp c.docA c.stA))
@@ -302,12 +302,12 @@ theorem quiet_after_recv_same (fp : Hash → Bool) {c : Cfg} (inv : Inv c) (hs :
   unfold quiet
   simp [e1, e2, e3, e4]
 
-theorem phase_Q (fp : Hash → Bool) {c : Cfg} (hr : Reachable fp c) (hab : c.linkAB = [])
+theorem phase_Q (fp : Hash → Bool) {c : Cfg} (hr : Good c) (hab : c.linkAB = [])
     (hba : c.linkBA = []) (hs : SameSet c) : Quiescent fp (round fp c) := by
-  have inv := Inv.of_reachable fp hr
-  have rd := round_docs hr
-  have hrr : Reachable fp (round fp c) := hr.round
-  have invr := Inv.of_reachable fp hrr
+  have inv := hr.inv
+  have rd := round_docs (fp := fp) hr
+  have hrr : Good (round fp c) := (hr.round fp)
+  have invr := hrr.inv
   -- it is enough to show that both `quiet` conditions hold at the end of the round
   suffices hq : quiet (round fp c).docA (round fp c).stA
         (mkBuilder fp (round fp c).docA (round fp c).stA) = true ∧
@@ -328,8 +328,8 @@ theorem phase_Q (fp : Hash → Bool) {c : Cfg} (hr : Reachable fp c) (hab : c.li
       obtain ⟨b1, b2⟩ := quiet_basic hqa
       exact ⟨quiet_after_recv_same fp inv.swap hs.swap b1 b2, quiet_sentState _ _ _ _⟩
   · rw [he] at hround
-    have hr1 : Reachable fp (sendA fp c) := by rw [← he]; exact hr.halfRound
-    have inv1 := Inv.of_reachable fp hr1
+    have hr1 : Good (sendA fp c) := by rw [← he]; exact (hr.halfRound fp)
+    have inv1 := hr1.inv
     have hdB : (sendA fp c).docB = c.docB := sendA_docB_same fp inv hs
     have hs1 : SameSet (sendA fp c) := by
       intro x
